@@ -941,6 +941,8 @@ class Interp:
             frame["__ty"] = tuple(sorted(tyenv.items()))
         st.frames.append(frame)
         depth = len(st.frames) - 1
+        self.fn_stack = getattr(self, "fn_stack", [])
+        self.fn_stack.append(f)
         for pi in range(1, n + 1):
             # a parameter whose (pointee) value is unknown is at least a value of its declared type
             v = frame.get(pi, TOP)
@@ -957,7 +959,10 @@ class Interp:
                         # the referent lives in the root frame: the callee may return a reference derived from it
                         st.frames[0][("p", f["key"], pi)] = d
                         frame[pi] = ("ref", 0, ("p", f["key"], pi), ())
-        ret = self.run_region(fv, st, depth, 0, None, {})
+        try:
+            ret = self.run_region(fv, st, depth, 0, None, {})
+        finally:
+            self.fn_stack.pop()
         st.frames.pop()
         self.call_depth -= 1
         return ret
@@ -2064,6 +2069,9 @@ class Interp:
         tr = __import__("os").environ.get("ABSINT_TRACE")
         if tr and re.search(tr, g["path"]):
             print("TRACE call", g["path"][-60:], "tyenv", tyenv, "args", [show_val(self.deref_val(st, a), 3)[:120] for a in args], "RAW", [a[:4] if a[0] in ("ref", "sl") else a[0] for a in args])
+        for rx, hook in getattr(self, "call_contracts", ()):
+            if rx.search(g["path"]):
+                hook(self, g, args, st)
         key_args = []
         refs = []
         for a in args:
@@ -2099,7 +2107,7 @@ class Interp:
             print("TRACE ret ", g["path"][-60:], show_val(ret, 3)[:200] if ret is not None else None, "| args after:", [show_val(self.deref_val(st, a), 3)[:200] for a in args])
         for rx, bound, name in getattr(self, "assumed_post", ()):
             if rx.search(g["path"]) and ret is not None:
-                ret = meet(ret, bound)
+                ret = meet(ret, bound(self, st, args) if callable(bound) else bound)
                 self.used_assumptions = getattr(self, "used_assumptions", set()) | {name}
         if pure:
             after = [self.read_path(st.frames[r[1]].get(r[2], TOP), r[3]) for r in refs]
